@@ -323,4 +323,23 @@ Section C02Model.
   Definition cv_coordnum_pl (pl : list bool) (r0 : T) (r0v : option V3) (en ed : Z) (tol : T) (cell : option V3) (g1 g2 : list atom) : T :=
     lsum (fun t : bool * (atom * atom) => if fst t then switching r0 r0v en ed tol cell (a_pos (fst (snd t))) (a_pos (snd (snd t))) else zero)
          (combine pl (all_pairs g1 g2)).
+  (* ---------------------------------------------------------------- a group fitted through another group
+     (atom_group::calc_apply_roto_translation with centerToReference on, rotateToReference on/off, optional fittingGroup):
+     fitg is the group used for the fit (the group itself without a fittingGroup); q is the optimal quaternion of
+     fit_pairs ref fitg *)
+  Definition fit_general (rotate_on : bool) (q : Q4) (ref : list V3) (fitg g : list atom) : list V3 :=
+    let c := cog fitg in let rc := pts_cog ref in
+    map (fun a => let p0 := v3sub O (a_pos a) c in
+                  v3add O (if rotate_on then rotate q p0 else p0) rc) g.
+  Definition flat_coords (l : list V3) : list T := flat_map (fun p => let '(x, y, z) := p in [x; y; z]) l.
+  (* ---------------------------------------------------------------- rmsd with atomPermutation (symmetry-adapted RMSD):
+     the group is fitted on the reference as listed; the sum of squares is then taken against the reference and against
+     each permuted copy ref_k[i] = ref[perm_k[i]], and the smallest one is kept (strict comparison, first one wins) *)
+  Definition perm_sum (pos ref : list V3) (perm : list nat) : T :=
+    lsum (fun t : V3 * nat => v3norm2 O (v3sub O (fst t) (nth (snd t) ref vzero))) (combine pos perm).
+  Definition min_sum (s0 : T) (l : list T) : T := fold_left (fun m v => if nltb O v m then v else m) l s0.
+  Definition cv_rmsd_perm (q : Q4) (ref : list V3) (perms : list (list nat)) (g : list atom) : T :=
+    let pos := fit_positions q ref g in
+    let s0 := lsum (fun pr => v3norm2 O (v3sub O (fst pr) (snd pr))) (combine pos ref) in
+    nsqrt O (min_sum s0 (map (perm_sum pos ref) perms) / nofnat (length g)).
 End C02Model.
